@@ -36,6 +36,9 @@ def run(ctx):
     ctx.rule("R2", "message funnel: rule messages are rendered only through RuleConfig::get_message")
     ctx.rule("R4", "no finding is dropped between the scan result and the listing (loops reach their emit on every iteration; pipelines have no dropping adaptor)")
     ctx.rule("R5", "the range of a finding is the matched node's range in every listing (never the fix's range)")
+    ctx.rule("R6", "the file front end scans the file's own text (what --stdin and the language server receive verbatim), so ranges agree")
+    from .c18 import read_file_identity
+    read_file_identity(ctx, "R6")
     ctx.rule("R3", "LSP: stale document versions are ignored; the stored version is the one published; close removes the entry")
     fronts = [
         (r"^<ast_grep::scan::ScanWithConfig as ast_grep::utils::worker::PathWorker>::produce_item$", "get_rule_from_lang"),
